@@ -42,7 +42,8 @@ var (
 		{Level{Kind: "db", DB: "d2"}, 9},
 		{Level{Kind: "table", DB: "d", Obj: "t1"}, 16},
 		{Level{Kind: "table", DB: "d", Obj: "t2"}, 11},
-		{Level{Kind: "table", DB: "d", Obj: "tdrop"}, 4},
+		{Level{Kind: "table", DB: "d", Obj: "tdrop"}, 5},
+		{Level{Kind: "table", DB: "d", Obj: "tdrop2"}, 4},
 		{Level{Kind: "table", DB: "d", Obj: "newt"}, 4},
 		{Level{Kind: "table", DB: "d", Obj: "vnew"}, 4},
 		{Level{Kind: "table", DB: "d2", Obj: "t1"}, 9},
